@@ -123,6 +123,17 @@ def run(chk):
         reads = [unparse(r)[:40] for r in _reads_usage(f.node) if not _presence_test_only(f, r)]
         r4.require(not reads, f"{f.key}|weather-only", f.where(), f"{f.qualname} computes the temperature features and must not read the usage column; found {reads[:3]}")
 
+    # the meter days the temperatures are grouped onto must not depend on the usage values: a thinly covered day stays a (NaN) row of
+    # the daily roll-up (one-row interpretation shared with C08, rules/downsample_absint.py) - otherwise its weather is pooled into the
+    # day before, which does get a prediction
+    from rules.downsample_absint import outcomes as downsample_outcomes
+    dsf = chk.repo.func("opendsm.eemeter.common.data_processor_utilities", "downsample_and_clean_daily_data")
+    for o in downsample_outcomes(chk):
+        r4.require(o.get("present") is True, f"{dsf.key}|meter-day-kept|coverage:{o['coverage']:g}", dsf.where(),
+                   f"downsample_and_clean_daily_data drops the day when {o['coverage']:.0%} of its usage readings are present ({ {k_: v_ for k_, v_ in o.items() if k_ in ('present', 'raises', 'returns')} }): "
+                   "the meter index the temperatures are grouped onto then depends on the usage values, and that day's weather is pooled into the previous day's prediction",
+                   sample={"coverage": o["coverage"], "present": o.get("present")})
+
     # ------------------------------------------------------------------ R05.2
     hm = chk.repo.cls(*HOURLY_MODEL)
     n_writes = 0
